@@ -21,6 +21,7 @@ fn main() {
         Some("replay") => replay::main(&args[2..]),
         Some("drive") => drive::main(&args[2..]),
         Some("exec") => replay::exec_main(&args[2..]),
+        Some("replay-instbig") => replay::instbig_main(&args[2..]),
         _ => {
             eprintln!("usage: harness replay|drive|exec ...");
             2
